@@ -75,6 +75,11 @@ def REF(cls):
     return ("ref", cls)
 
 
+def CALLABLE(name, returns=None, raises=("Exception",)):
+    """An opaque callable: calling it records event `name`, may raise any of `raises`, returns a fresh value."""
+    return ("callable", name, returns, tuple(raises))
+
+
 # -- helpers usable inside spec expressions (symbolic versions are installed by the interpreter) -----------------------
 
 def implies(a, b):
@@ -96,6 +101,16 @@ def congruent(a, b, m):
 def be(n, w):
     """big-endian base-256 digits of 0 <= n < 256**w (definition: sum(b[i] * 256**(w-1-i)) == n, 0 <= b[i] < 256)"""
     return int(n).to_bytes(w, "big")
+
+
+def be_at(data, offset, w):
+    """unsigned big-endian integer formed by data[offset], ..., data[offset+w-1]"""
+    return int.from_bytes(data[offset:offset + w], "big")
+
+
+def le_at(data, offset, w):
+    """unsigned little-endian integer formed by data[offset .. offset+w-1]"""
+    return int.from_bytes(data[offset:offset + w], "little")
 
 
 def canonical_ipv4(s):
@@ -131,11 +146,12 @@ AUDITS: list = []
 
 def contract(fn, name, call, vars=None, requires=(), ensures=(), raises=None, ensures_raise=(), instances=None,  # noqa: A002
              uses=(), loops=None, modular=None, note="", must_inline=(), replay=None, on_effect=None, covers=(),
-             assumes=(), tier="quick", max_paths=None, expected_paths=None):
+             assumes=(), tier="quick", max_paths=None, expected_paths=None, stubs=None, refs=None):
     c = dict(fn=fn, name=name, call=call, vars=vars or {}, requires=list(requires), ensures=list(ensures),
              raises=raises, ensures_raise=list(ensures_raise), instances=instances or [{}], uses=list(uses),
              loops=loops or {}, modular=modular, note=note, must_inline=list(must_inline), replay=replay,
-             on_effect=on_effect or {}, covers=list(covers), assumes=list(assumes), tier=tier, max_paths=max_paths)
+             on_effect=on_effect or {}, covers=list(covers), assumes=list(assumes), tier=tier, max_paths=max_paths,
+             stubs=stubs or {}, refs=refs or {})
     CONTRACTS.append(c)
     return c
 
